@@ -407,6 +407,26 @@ fn build_spaces(thorough: bool) -> Vec<Sub> {
             }),
         });
     }
+    // (b2) value pieces: every sequence of <= 4 (thorough: 5) pieces - static text, blanks, bindings whose expression is a name, a
+    // concatenation with a string literal on either side, a literal alone, an empty literal, a lone brace - as element text, as a plain
+    // attribute, as class and as a template data attribute (the parser folds the pieces of a value into one concatenation tree and
+    // the printer takes it apart again: the two must agree on every shape of the first, middle and last piece)
+    const VALUE_PIECES: &[&str] = &["x", " ", "{{a}}", "{{a+'s'}}", "{{'s'+a}}", "{{'s'}}", "{{a+'s'+b}}", "{{''}}", "{", "{{a?'s':b}}", "{{(a+'s')}}"];
+    const VALUE_CONTEXTS: &[(&str, &str)] = &[("<a>", "</a>"), ("<a b=\"", "\"/>"), ("<a class=\"", "\"/>"), ("<a c=\"{{d}}\" b=\"", "\">t</a>"), ("", "")];
+    let avp = VALUE_PIECES.len() as u64;
+    let l_vp = if thorough { 5 } else { 4 };
+    for (pre, suf) in VALUE_CONTEXTS.iter() {
+        let size = str_space_size(avp, l_vp);
+        let (pre, suf) = (pre.to_string(), suf.to_string());
+        subs.push(Sub {
+            name: format!("value-pieces:{}…{}:len<={}", pre, suf, l_vp),
+            size,
+            gen: Box::new(move |i| {
+                let w = str_of(&str_unrank(i, avp, l_vp), VALUE_PIECES);
+                Case::Tmpl { path: "p".to_string(), src: format!("{}{}{}", pre, w, suf) }
+            }),
+        });
+    }
     // (c) deviation-bounded mutants of the well-formed corpus (k = 1; k = 2 for short seeds when thorough)
     let mut devs: Vec<String> = vec![];
     for seed in SEEDS {
